@@ -168,22 +168,26 @@ class Ctx:
                 "-I" + os.path.join(REPO, "SRC"), "-I" + os.path.join(VERIF, "harness")]
         if flavor == "hooks":
             fl = base + ["-O2", "-D" + GUARD]
+        elif flavor == "vendor":      # the USE_VENDOR_BLAS code paths (as the pinned cmake build), BLAS = /repo/CBLAS
+            fl = base + ["-O2", "-D" + GUARD, "-DUSE_VENDOR_BLAS"]
         elif flavor == "nohooks":
             fl = base + ["-O2"]
         elif flavor == "asan":
             fl = base + ["-O1", "-D" + GUARD, "-fsanitize=address,undefined", "-fno-omit-frame-pointer"]
         elif flavor == "fault":
             fl = base + ["-O1", "-D" + GUARD, "-DUSER_MALLOC=verif_malloc", "-DUSER_FREE=verif_free",
-                         "-DUSER_ABORT=verif_abort"]
+                         "-DUSER_ABORT=verif_abort", "-include", os.path.join(VERIF, "harness", "verif_malloc.h")]
         elif flavor == "faultasan":
             fl = base + ["-O1", "-D" + GUARD, "-DUSER_MALLOC=verif_malloc", "-DUSER_FREE=verif_free",
-                         "-DUSER_ABORT=verif_abort", "-fsanitize=address", "-fno-omit-frame-pointer"]
+                         "-DUSER_ABORT=verif_abort", "-include", os.path.join(VERIF, "harness", "verif_malloc.h"),
+                         "-fsanitize=address", "-fno-omit-frame-pointer"]
         else:
             raise CheckError("unknown flavor " + flavor)
         fl = fl + list(extra)
         src = sorted(f for f in glob.glob(os.path.join(REPO, "SRC", "*.c"))
                      if os.path.basename(f) != "sp_ienv.c")
-        cb = sorted(glob.glob(os.path.join(REPO, "CBLAS", "*.c")))
+        cb = sorted(f for f in glob.glob(os.path.join(REPO, "CBLAS", "*.c"))
+                    if not os.path.basename(f).endswith("myblas2.c"))   # stale copies, not in CBLAS/Makefile
         objs = self.cc_objects(src, fl, flavor) + \
             self.cc_objects(cb, fl + ["-I" + os.path.join(REPO, "CBLAS")], flavor + "-cblas")
         tag = sha(*objs)[:16]
